@@ -411,6 +411,7 @@ type TypeInv struct {
 	Type  string
 	Expr  *SExpr
 	Where string
+	Text  string
 }
 
 var fileTypeInvs []*TypeInv
@@ -480,7 +481,7 @@ func readContractFile(path, pkg string) ([]*Contract, error) {
 			if err != nil {
 				return nil, fmt.Errorf("%s: %v", where, err)
 			}
-			fileAbsFns = append(fileAbsFns, &TypeInv{Type: pkg + "." + strings.TrimSpace(f[0]), Expr: x, Where: where})
+			fileAbsFns = append(fileAbsFns, &TypeInv{Type: pkg + "." + strings.TrimSpace(f[0]), Expr: x, Where: where, Text: strings.TrimSpace(f[1])})
 			cur = nil
 			last = nil
 			continue
